@@ -13,3 +13,4 @@ import L21.Props.C14RT
 #print axioms L21.RawProto.c14_layerless_shapes
 #print axioms L21.RawProto.c14_elements_roundtrip
 #print axioms L21.RawProto.c14_layout_roundtrip
+#print axioms L21.RawProto.c14_proto_layout_roundtrip
